@@ -20,7 +20,7 @@ RULE = ('inputs of the conversion helpers: (value, bitwidth|None, signed) exhaus
         'and a list of malformed strings; Const on the same triples; val_to_signed_integer / twos_comp_repr / '
         'rev_twos_comp_repr on all (value, width) with width <= 10 plus boundaries; all five format types '
         '(s,u,x,b,e + unknown) x widths 1..8 exhaustively over [0,2^w) plus boundaries, and back; bit patterns over '
-        '{0,1,a,b,?} exhaustively up to length 5 (quick) / 7 (thorough) and sampled up to length 10 (also with '
+        '{0,1,a,b,?} exhaustively up to length 5 (quick) / 6 (thorough) and sampled up to length 10 (also with '
         '_ and blanks for match_bitpattern) x field tuples (exact, too wide, negative, wrong arity), each '
         'accepted value fed to a simulated match_bitpattern circuit.  A case = one helper call; distinct by '
         '(helper, arguments); all cases are non-trivial calls (error paths are counted separately).')
@@ -175,7 +175,7 @@ def boundary_values(kmax):
 
 def check_int(ctx, F):
     kmax = 130 if ctx.tier == 'quick' else 260
-    small_vs = list(range(-300, 301)) if ctx.tier == 'quick' else list(range(-1100, 1101))
+    small_vs = list(range(-300, 301)) if ctx.tier == 'quick' else list(range(-700, 701))
     small_ws = [None] + list(range(-1, 11 if ctx.tier == 'quick' else 13))
     groups = [('small', small_vs[i:i + 60], small_ws) for i in range(0, len(small_vs), 60)]
     groups += [('k=%d' % k, vs, ws) for k, vs, ws in boundary_values(kmax)]
@@ -406,7 +406,7 @@ def check_signed_and_twos(ctx, F):
     wmax = 8 if ctx.tier == 'quick' else 10
     groups = []
     ws = list(range(-1, wmax + 3))
-    vs = list(range(-300, 301)) if ctx.tier == 'quick' else list(range(-1100, 1101))
+    vs = list(range(-300, 301)) if ctx.tier == 'quick' else list(range(-700, 701))
     for i in range(0, len(vs), 100):
         groups.append((vs[i:i + 100], ws))
     kmax = 130 if ctx.tier == 'quick' else 260
@@ -518,7 +518,7 @@ def spec_to_str(v, ty, w):
 
 
 def check_formats(ctx, F):
-    wmax = 8 if ctx.tier == 'quick' else 11
+    wmax = 8 if ctx.tier == 'quick' else 10
     groups = []   # (values, formats)
     for w in range(1, wmax + 1):
         fs = ['%s%d' % (t, w) for t in 'suxbq'] + ['e%d/Ctl' % w, 'e%d/Nope' % w]
@@ -676,7 +676,7 @@ def sim_match(p, values):
 
 def check_bitpatterns(ctx, F):
     rng = ctx.sub_rng('bitpattern')
-    lmax = 5 if ctx.tier == 'quick' else 7
+    lmax = 5 if ctx.tier == 'quick' else 6
     pats = []
     for n in range(1, lmax + 1):
         pats += [''.join(t) for t in itertools.product('01ab?', repeat=n)]
